@@ -19,6 +19,14 @@ Theorem C20_path_meets_spec : forall (P : Type) (mid : P -> P -> P) (c : list (p
   legal (types P c) -> to_path P mid c = Ok (spec_path P mid c).
 Proof. exact path_meets_spec. Qed.
 
+(** The same in the words of the property text, which does not fix the start point of a closed
+    contour: the result is one of the outlines the specification allows ([valid_outlines]: any
+    on-curve point of a closed contour may be the start). This is the predicate the run-time
+    oracle evaluates on the implementation's paths. *)
+Theorem C20_path_is_outline : forall (P : Type) (mid : P -> P -> P) (c : list (point P)),
+  legal (types P c) -> exists path, to_path P mid c = Ok path /\ In path (valid_outlines P mid c).
+Proof. exact path_is_outline. Qed.
+
 Theorem C20_never_errors_on_legal : forall (P : Type) (mid : P -> P -> P) (c : list (point P)),
   legal (types P c) -> exists path, to_path P mid c = Ok path.
 Proof. exact never_errors_on_legal. Qed.
